@@ -435,13 +435,24 @@ def finish(check, rec, tier, seed, t0, coverage_extra=None, assumptions=None):
     }
     if coverage_extra:
         cov.update(coverage_extra)
+    try:
+        import subprocess
+        head = subprocess.run(["git", "-C", REPO, "rev-parse", "--short", "HEAD"], capture_output=True, text=True, timeout=20).stdout.strip()
+        dirty = bool(subprocess.run(["git", "-C", REPO, "status", "--porcelain", "--untracked-files=no"], capture_output=True, text=True,
+                                    timeout=20).stdout.strip())
+    except Exception:  # noqa: BLE001
+        head, dirty = "", False
+    cov["subject"] = {"checkout": REPO, "head": head, "working_tree_modified": dirty}
     ev = {
         "property_id": prop, "tier": tier, "seed": int(seed), "level": check.LEVEL,
         "coverage": cov, "assumptions": list(assumptions or getattr(check, "ASSUMPTIONS", [])),
         "wall_s": round(time.time() - t0, 2), "violations": len(new),
     }
-    os.makedirs(os.path.join(VERIF, "evidence"), exist_ok=True)
-    epath = os.path.join(VERIF, "evidence", prop + ".json")
+    # the registered evidence file describes runs against /repo only; a run against another checkout (VERIF_REPO: a
+    # worktree carrying a seeded change) writes next to it, in a directory that is not committed
+    edir = "evidence" if os.path.realpath(REPO) == "/repo" else "evidence_other_checkout"
+    os.makedirs(os.path.join(VERIF, edir), exist_ok=True)
+    epath = os.path.join(VERIF, edir, prop + ".json")
     tool_fail = list(rec.tool_errors)
     try:
         import jsonschema
